@@ -98,9 +98,23 @@ def truncation_verdict(text, allopts, out):
             bases.append(sqlparse.format(text))
         except Exception:
             pass
-        if any(norm(out) == norm(truncate_reference(b, allopts)) for b in bases):
+        # third red-team pass: the normalisation above is the SERIALIZER's, which never touches the inside of a '…' literal — so, besides the
+        # texts agreeing modulo it, every literal of the reference (truncated or not) must stand in the output character for character, in order
+        def literals_exact(ref):
+            pos = 0
+            for tt, v in oracles.lex(ref):
+                if tt is T.Literal.String.Single:
+                    pos = out.find(v, pos)
+                    if pos < 0:
+                        return False
+                    pos += len(v)
+            return True
+
+        def agrees(quirk):
+            return any(norm(out) == norm(r) and literals_exact(r) for r in (truncate_reference(b, allopts, quirk=quirk) for b in bases))
+        if agrees(False):
             return 'spec'
-        if any(norm(out) == norm(truncate_reference(b, allopts, quirk=True)) for b in bases):
+        if agrees(True):
             return 'quirk'
     except Exception:
         return None
